@@ -48,15 +48,16 @@ def same(a, b):
 
 def json_values(depth, width, leaves=None, keys=None):
     """All closed JSON terms up to `depth` constructor levels and `width`
-    members per container, leaves first (simplest first)."""
+    members per container, leaves first (simplest first).  The last level is
+    produced lazily, so a consumer may stop early."""
     leaves = LEAVES if leaves is None else leaves
     keys = DICT_KEYS if keys is None else keys
-    level = list(leaves)
-    seen = {repr(tkey(v)) for v in level}
-    for v in level:
+    seen = {repr(tkey(v)) for v in leaves}
+    for v in leaves:
         yield v
-    prev = list(level)
-    for _ in range(depth):
+    prev = list(leaves)
+    for level in range(depth):
+        last = level == depth - 1
         new = []
         for w in range(1, width + 1):
             for combo in itertools.product(prev, repeat=w):
@@ -64,16 +65,18 @@ def json_values(depth, width, leaves=None, keys=None):
                 k = repr(tkey(v))
                 if k not in seen:
                     seen.add(k)
-                    new.append(v)
+                    yield v
+                    if not last:
+                        new.append(v)
             for ks in itertools.combinations(keys[: width + 2], w):
                 for combo in itertools.product(prev, repeat=w):
                     v = dict(zip(ks, combo))
                     k = repr(tkey(v))
                     if k not in seen:
                         seen.add(k)
-                        new.append(v)
-        for v in new:
-            yield v
+                        yield v
+                        if not last:
+                            new.append(v)
         prev = prev + new
 
 
